@@ -7,11 +7,12 @@ Import ListNotations.
 Open Scope Z_scope.
 
 Section Facts.
+  Variable unit : Z.
   Variable clock : nat -> Z.
   Variable timeout_ms : Z.
   Variable more : nat -> bool.
-  Notation late := (late clock timeout_ms).
-  Notation chunks := (chunks clock timeout_ms more).
+  Notation late := (late unit clock timeout_ms).
+  Notation chunks := (chunks unit clock timeout_ms more).
 
   (* every chunk but the last one read was followed by a deadline check that passed *)
   Lemma chunks_checked :
@@ -54,43 +55,43 @@ End Facts.
 (* ---- statements about a whole download *)
 
 Theorem download_deadline_every_chunk_lemma :
-  forall clock timeout_ms more fuel,
-    let n := snd (chunks clock timeout_ms more fuel O) in
+  forall unit clock timeout_ms more fuel,
+    let n := snd (chunks unit clock timeout_ms more fuel O) in
     (* the deadline check passed after each of the first n-1 chunks *)
-    (forall i, (1 <= i < n)%nat -> late clock timeout_ms i = false)
+    (forall i, (1 <= i < n)%nat -> late unit clock timeout_ms i = false)
     (* hence the time spent before the last chunk started is within the timeout *)
-    /\ (0 <= timeout_ms -> (1 <= n)%nat -> 1000 * (clock (n - 1)%nat - clock O) <= timeout_ms).
+    /\ (0 <= timeout_ms -> (1 <= n)%nat -> unit * (clock (n - 1)%nat - clock O) <= timeout_ms).
 Proof.
-  intros clock timeout_ms more fuel n. split.
-  - intros i Hi. apply (chunks_checked clock timeout_ms more fuel O); [intros j Hj; exfalso; lia|exact Hi].
+  intros unit clock timeout_ms more fuel n. split.
+  - intros i Hi. apply (chunks_checked unit clock timeout_ms more fuel O); [intros j Hj; exfalso; lia|exact Hi].
   - intros Ht Hn. destruct (Nat.eq_dec n 1) as [E|E].
-    + rewrite E. change (1 - 1)%nat with O. lia.
-    + assert (H : late clock timeout_ms (n - 1) = false).
-      { apply (chunks_checked clock timeout_ms more fuel O); [intros j Hj; exfalso; lia|fold n; lia]. }
+    + rewrite E. change (1 - 1)%nat with O. rewrite Z.sub_diag, Z.mul_0_r. exact Ht.
+    + assert (H : late unit clock timeout_ms (n - 1) = false).
+      { apply (chunks_checked unit clock timeout_ms more fuel O); [intros j Hj; exfalso; lia|fold n; lia]. }
       unfold late in H. lia.
 Qed.
 
 (* at most one chunk is read after the deadline passed: once some reading j >= 1 is beyond
    the deadline, no more than j chunks are read, for every body incl. endless ones *)
 Theorem download_bounded_lemma :
-  forall clock timeout_ms more fuel j,
-    late clock timeout_ms j = true -> (1 <= j <= fuel)%nat ->
-    fst (chunks clock timeout_ms more fuel O) <> DlOutOfFuel
-    /\ (snd (chunks clock timeout_ms more fuel O) <= j)%nat.
+  forall unit clock timeout_ms more fuel j,
+    late unit clock timeout_ms j = true -> (1 <= j <= fuel)%nat ->
+    fst (chunks unit clock timeout_ms more fuel O) <> DlOutOfFuel
+    /\ (snd (chunks unit clock timeout_ms more fuel O) <= j)%nat.
 Proof.
-  intros clock timeout_ms more fuel j Hj Hr.
-  apply (chunks_stop clock timeout_ms more fuel O j); auto; lia.
+  intros unit clock timeout_ms more fuel j Hj Hr.
+  apply (chunks_stop unit clock timeout_ms more fuel O j); auto; lia.
 Qed.
 
 (* a finite body never needs more fuel than its length + 1 *)
 Lemma chunks_finite :
-  forall durs timeout_ms fuel i0,
+  forall unit durs timeout_ms fuel i0,
     (length durs < i0 + fuel)%nat -> (i0 <= length durs)%nat ->
-    fst (chunks (body_clock durs) timeout_ms (body_more durs) fuel i0) <> DlOutOfFuel.
+    fst (chunks unit (body_clock durs) timeout_ms (body_more durs) fuel i0) <> DlOutOfFuel.
 Proof.
-  intros durs timeout_ms. induction fuel as [|f IH]; intros i0 H1 H2; [lia|].
+  intros unit durs timeout_ms. induction fuel as [|f IH]; intros i0 H1 H2; [lia|].
   cbn [chunks]. unfold body_more at 1. destruct (Nat.ltb i0 (length durs)) eqn:E.
-  - destruct (late _ _ (S i0)); [cbn; discriminate|].
+  - destruct (late _ _ _ (S i0)); [cbn; discriminate|].
     apply IH; [lia|]. apply Nat.ltb_lt in E. lia.
   - cbn. discriminate.
 Qed.
@@ -98,6 +99,6 @@ Qed.
 (* non-vacuity: an endless body trickling 250 ms per chunk with a 1000 ms timeout is cut
    off at the fifth chunk (reading 5 = 1250 ms is the first one beyond the deadline) *)
 Example trickle_example :
-  chunks (fun i => 250 * Z.of_nat i) 1000000 (fun _ => true) 100 O = (DlSlow, 5%nat)
-  /\ late (fun i => 250 * Z.of_nat i) 1000000 5 = true.
+  chunks 1 (fun i => 250 * Z.of_nat i) 1000 (fun _ => true) 100 O = (DlSlow, 5%nat)
+  /\ late 1 (fun i => 250 * Z.of_nat i) 1000 5 = true.
 Proof. vm_compute. split; reflexivity. Qed.
